@@ -13,14 +13,18 @@ PID = "C08"
 
 
 def history(rng, t, oob_kind):
-    """one program: a dynamic array history ending (optionally) in an out-of-bounds access"""
+    """one program: a dynamic array history — literal construction, append, element assignment, indexing with opaque and
+    compile-time-known indices, REASSIGNMENT of the variable (from a call building an array of another length, from another literal,
+    from another variable) — ending (optionally) in an out-of-bounds access.  `static` mirrors what a compiler may know: the literal
+    length, None after an assignment from a non-literal.  Compile-time-known indices avoid the region of known finding F12 only
+    (a literal index >= the literal's length, or a negative one, after an append)."""
     n = 1 + rng.below(4)
     vals = [wrap(t, rng.below(100) - 50) for _ in range(n)]
-    body = [Let("d", TD(t), ALit(*[I(t, v) for v in vals]))]
-    ln = n
-    appended = False
-    for step in range(3 + rng.below(8)):
-        r = rng.below(10)
+    body = [Let("d", TD(t), ALit(*[I(t, v) for v in vals])), Let("e", TD(t), ALit(*[I(t, wrap(t, 60 + k)) for k in range(2 + rng.below(4))]))]
+    elen = len(body[1].split("(i ")) - 1
+    ln, static, appended = n, n, False
+    for step in range(3 + rng.below(9)):
+        r = rng.below(14)
         if r < 3:
             body.append(Append(V("d"), I(t, wrap(t, rng.below(100)))))
             ln += 1; appended = True
@@ -30,9 +34,23 @@ def history(rng, t, oob_kind):
         elif r < 8:
             i = rng.choice([-ln, -1, 0, ln - 1, rng.below(2 * ln) - ln])
             body.append(Print(Idx(V("d"), Call("ix", I("i32", i)))))
-        elif r < 9 and not appended:
-            i = rng.below(ln)                                     # compile-time-known index, valid for the literal
+        elif r < 10:
+            # compile-time-known index valid for the CURRENT length
+            if appended and static is not None:
+                i = rng.below(static)                                  # F12 region avoided
+            else:
+                i = rng.choice([rng.below(ln), ln - 1, -1, -ln, rng.below(2 * ln) - ln])
+            if rng.below(3) == 0: body.append(Set(Idx(V("d"), I("i32", i)), I(t, wrap(t, rng.below(100)))))
             body.append(Print(Idx(V("d"), I("i32", i))))
+        elif r < 11:
+            k = 1 + rng.below(7)
+            body.append(Set(V("d"), Call("mk", I("i32", k)))); ln, static, appended = k, None, False
+        elif r < 12:
+            k = 1 + rng.below(5)
+            body.append(Set(V("d"), ALit(*[I(t, wrap(t, 30 + j)) for j in range(k)]))); ln, static, appended = k, k, False
+        elif r < 13:
+            body.append(Set(V("d"), V("e"))); ln, static, appended = elen, None, False
+            body.append(Print(Len(V("d"))))
         else:
             body.append(Print(Len(V("d"))))
     body.append(Print(Len(V("d"))))
@@ -40,7 +58,40 @@ def history(rng, t, oob_kind):
         body += [Print(I("i32", 4242)), Print(Idx(V("d"), Call("ix", I("i32", rng.choice([ln, ln + 1, -ln - 1, 2147483647, -2147483648]))))), Print(I("i32", 1))]
     elif oob_kind == "write":
         body += [Print(I("i32", 4242)), Set(Idx(V("d"), Call("ix", I("i32", rng.choice([ln, -ln - 1, ln + 7])))), I(t, 1)), Print(I("i32", 1))]
-    return Prog(Fn("ix", [("k", "i32")], "i32", Ret(V("k"))), Main(*body))
+    mk = Fn("mk", [("n", "i32")], TD(t), Let("r", TD(t), ALit(I(t, 0))), Let("j", "i32", I("i32", 1)),
+            While(Bin("lt", "i32", V("j"), V("n")), Append(V("r"), Cast("i32", t, Bin("mul", "i32", V("j"), I("i32", 3)))), Set(V("j"), Bin("add", "i32", V("j"), I("i32", 1)))), Ret(V("r")))
+    return Prog(Fn("ix", [("k", "i32")], "i32", Ret(V("k"))), mk, Main(*body))
+
+
+def string_history(rng):
+    """a string VARIABLE assigned constants of different lengths, indexed (opaque and literal indices, negative ones too) while it holds
+    each of them; optionally ends in an out-of-bounds index for the value it holds at that moment.  -> (text, expected lines, panics)"""
+    pool = ["hi", "hello, world", "a", "xyzzy", "0123456789abcdef", "ok!"]
+    lines = ['import "std/io";', "fn ix(k: i32) -> i32 { return k; }", "fn pick(k: i32) -> str {", '    if k == 0 { return "zero"; }', '    return "seventeen chars!!";', "}", "fn main() {"]
+    cur = rng.choice(pool)
+    lines.append('    let s: str = "%s";' % cur)
+    exp, cnt = [], 0
+    for step in range(3 + rng.below(7)):
+        r = rng.below(10)
+        if r < 5:
+            b = cur.encode()
+            i = rng.choice([0, -1, len(b) - 1, -len(b), rng.below(2 * len(b)) - len(b)])
+            cnt += 1
+            idx = "ix(%d)" % i if rng.below(3) else "%d" % i
+            lines.append("    let c%d: u8 = s[%s] as u8;" % (cnt, idx)); lines.append("    io::Println(c%d);" % cnt); exp.append(str(b[i]))
+        elif r < 8:
+            cur = rng.choice(pool); lines.append('    s = "%s";' % cur)
+        elif r < 9:
+            k = rng.below(2); cur = ["zero", "seventeen chars!!"][0 if k == 0 else 1]; lines.append("    s = pick(%d);" % k)
+        else:
+            lines.append("    io::Println(len(s));"); exp.append(str(len(cur.encode())))
+    lines.append("    io::Println(777);"); exp.append("777")
+    panics = rng.below(2) == 0
+    if panics:
+        n = len(cur.encode())
+        lines.append("    let z: u8 = s[ix(%d)] as u8;" % rng.choice([n, n + 3, -n - 1])); lines.append("    io::Println(z);")
+    lines.append("}")
+    return "\n".join(lines) + "\n", exp, panics
 
 
 STRING_CASES = [("hello", [0, 4, -1, -5], None), ("hello", [1], 5), ("hello", [2], -6), ("a", [0, -1], 1), ("xyz", [0], 3), ("héllo", [0], 6)]
@@ -122,6 +173,18 @@ def main():
                          (target, s, ok_idx, bad, r.lines, r.run_rc, strip_ansi(r.compile_out)[-120:], exp, "then panic" if panics else "exit 0"),
                          {"kind": "input", "files": {"main.fer": text}, "target": target, "expected": exp, "observed": r.lines})
 
+        # string variables holding constants of different lengths over time
+        sh = [string_history(rng) for _ in range(40 if tier == "quick" else 400)]
+        shr = run_many([{"files": {"main.fer": t_}, "mode": "run", "target": target, "timeout": 30} for t_, _, _ in sh])
+        for (text, exp, panics), r in zip(sh, shr):
+            st["string_cases"] += 1
+            if target == "wasm" and not r.accepted: continue          # constructs the wasm back end does not support are outside the common domain
+            good = r.accepted and r.lines == exp and ((r.run_rc != 0) if panics else (r.run_rc == 0))
+            if not good:
+                rep.fail("strhist:%s:%s" % (target, hashlib.sha1(text.encode()).hexdigest()[:12]), "string history on %s -> lines %s exit %s (%s), expected %s %s" %
+                         (target, r.lines[-6:], r.run_rc, strip_ansi(r.compile_out)[-160:], exp[-6:], "then panic" if panics else "exit 0"),
+                         {"kind": "input", "files": {"main.fer": text}, "target": target, "expected": exp, "observed": r.lines})
+
     ok, out = lake_build(["FerretVerif.Props.C08"])
     tn = theorem_names("C08")
     axioms, discharged = {}, 0
@@ -143,7 +206,7 @@ def main():
         "trusted_base": ["Lean 4 kernel", "axioms: " + ", ".join(sorted({a for v in axioms.values() if v for a in v})), "Core/Eval.lean as the oracle of array histories", "runner: exit status / stderr text / stdout captured through a file"],
         "theorems": [{"name": nm, "axioms": axioms.get(nm)} for nm in tn],
         "evaluations": st["programs"] + st["string_cases"], "distinct_nontrivial": st["panics_expected"],
-        "rule": "seeded histories (literal, append, element assignment, indexing with opaque indices in {-len-1..len+1, INT_MIN, INT_MAX} and compile-time-known indices, len) for element types "
+        "rule": "seeded histories (literal, append, element assignment, reassignment from a call / another literal / another variable, string variables reassigned to constants of other lengths, indexing with opaque indices in {-len-1..len+1, INT_MIN, INT_MAX} and compile-time-known indices, len) for element types "
                 "i32/i64/u8/i16; one third end in an out-of-bounds read, one third in an out-of-bounds write; string indexing cases; both targets; non-trivial = histories that must panic",
         "samples": [ms[0].get("text", "")[:400]], "stats": st,
     }
